@@ -84,6 +84,7 @@ type worldSpec struct {
 	Back  string `json:"backend"`
 	Jump  int    `json:"jump"` // >0: state-sync world with that many source blocks
 	SSI   int    `json:"ssi"`
+	Quiet []int  `json:"quiet"` // [from, to]: heights generated as empty blocks
 }
 
 func variant(name string, gcp int) Variant {
@@ -101,6 +102,9 @@ func variant(name string, gcp int) Variant {
 func runWorld(t *testing.T, res *vh.Result, tr *vh.Trace, wi int, ws worldSpec, workers int) {
 	w := &World{T: t, Res: res, Tr: tr, WI: wi, Net: chainkit.NewNet(5, 3), SRIH: ws.SRIH, MTB: uint32(ws.MTB),
 		Node: variant(ws.Node, ws.GCP), MaxTx: ws.MaxTx, Cont: ws.Cont, sched: ws.Sched, P2P: ws.Jump > 0, SSI: ws.SSI}
+	if len(ws.Quiet) == 2 {
+		w.Quiet = [2]uint32{uint32(ws.Quiet[0]), uint32(ws.Quiet[1])}
+	}
 	if err := w.Init(); err != nil {
 		t.Fatal(err)
 	}
@@ -156,7 +160,11 @@ func runWorld(t *testing.T, res *vh.Result, tr *vh.Trace, wi int, ws worldSpec, 
 		tr.Emit(map[string]any{"event": "ref", "h": h, "digest": d})
 	}
 	var pick func(int) bool
-	if ws.Pick > 1 {
+	if ws.Jump > 0 {
+		// crash points of the collection phase belong to the synchronisation protocol (C20), not to the jump
+		first := rr.resets[0].First
+		pick = func(i int) bool { return i > first }
+	} else if ws.Pick > 1 {
 		inReset := map[int]bool{}
 		for _, s := range rr.resets {
 			for i := s.First; i <= s.Last+1; i++ {
